@@ -377,8 +377,62 @@ def run (rpn : String) (shapes : List (List Nat)) (rargs : List (List Int)) : St
       s!"M {fmtInfo i} shape={fmtNats s}{res}"
     | _ => "M unsupported:stack"
 
+/-! ### `c11old op=… kind=… shape=… [kind2=… shape2=…]`: the older resolver of a bare `array::eval(view)` (harness/h_c11_old.cpp) -/
+
+/-- leaf kinds of h_c11_old.cpp: (knowledge of the array type, what the older resolver sees of it, static rank) -/
+def oldLeaf (kind : String) : Option (SInfo × OperK × Nat) :=
+  match kind with
+  | "fd2" => some (⟨.fixedDim 2, .any⟩, ⟨.fixedDim 2, .dyn⟩, 2)
+  | "fd3" => some (⟨.fixedDim 3, .any⟩, ⟨.fixedDim 3, .dyn⟩, 3)
+  | "bd3" => some (⟨.boundedDim 3, .any⟩, ⟨.boundedDim 3, .dyn⟩, 0)
+  | "dy" => some (⟨.dyn, .any⟩, ⟨.dyn, .dyn⟩, 0)
+  | "cs23" => some (⟨.const [2, 3], .known 6⟩, ⟨.const [2, 3], .fixed 6⟩, 2)
+  | "fdf23" => some (⟨.fixedDim 2, .known 6⟩, ⟨.fixedDim 2, .fixed 6⟩, 2)
+  | "cld23" => some (⟨.clipped [2, 3], .any⟩, ⟨.clipped [2, 3], .dyn⟩, 2)
+  | _ => none
+
+def fmtOld (v : SInfo) (t : Shape) (r : Option ResK) : String :=
+  match r with
+  | none => "M unsupported:does-not-compile"
+  | some r =>
+    let b (x : Bool) : String := if x then "1" else "0"
+    s!"M shape={fmtNats t} ork={fmtShapeK r.info.shape} orfz={fmtOptNat r.info.fixedSize} orbz={fmtOptNat r.info.boundedSize} covers={b (r.covers v)} fits={b (decide (r.admits t))}"
+
+def runOld (op kind : String) (s : Shape) (second : Option (String × Shape)) : M String := do
+  let (i, a, rank) ← need (oldLeaf kind) "unknown-leaf-kind"
+  if op == "add" then
+    let (k2, s2) ← need second "second-operand"
+    let (j, b, _) ← need (oldLeaf k2) "unknown-leaf-kind"
+    let v ← need (transferUfunc2 i j) "transfer"
+    let t ← need (refBroadcast s s2) "ref-shape"
+    pure (fmtOld v t (resolveEvalOld2 a b v))
+  else
+    let (v, t) ← (match op with
+      | "neg" => do let v ← need (transferUfunc1 i) "transfer"; pure (v, s)
+      | "tr" => do let v ← need (transferTranspose none i) "transfer"; pure (v, s.reverse)
+      | "tile2" => do let v ← need (transferTile .rtv i) "transfer"; pure (v, refTile (List.replicate (s.length + 1) 2) s)
+      | "tileN" =>
+        if rank = 0 then .error "unknown-op"
+        else do let v ← need (transferTile (.rt rank) i) "transfer"; pure (v, refTile (List.replicate (rank - 1) 1 ++ [2]) s)
+      | "exp0" => do
+          let v ← need (transferExpandDims .rts i) "transfer"
+          let t ← need (refExpandDims [0] s) "ref-shape"
+          pure (v, t)
+      | _ => .error "unknown-op" : M (SInfo × Shape))
+    pure (fmtOld v t (resolveEvalOld1 a v))
+
 def handle : Handler := fun op a =>
   match op with
+  | "c11old" => orBad do
+      let o ← a.get? "op"
+      let kind ← a.get? "kind"
+      let shapes ← a.natLists "shape"
+      let s := shapes.headD []
+      let second : Option (String × Shape) := do
+        let k2 ← a.get? "kind2"
+        let s2 ← a.natLists "shape2"
+        pure (k2, s2.headD [])
+      pure (match runOld o kind s second with | .ok r => r | .error e => s!"M unsupported:{e}")
   | "c11" => orBad do
       let rpn ← a.get? "rpn"
       let shapes ← a.natLists "shapes"
